@@ -8,6 +8,7 @@
 // Build (setup.sh):
 //   clang++ $(llvm-config-14 --cxxflags) -fno-rtti irdump.cc -o irdump \
 //       /usr/lib/llvm-14/lib/libLLVM-14.so
+#include "llvm/Analysis/ConstantFolding.h"
 #include "llvm/IR/Constants.h"
 #include "llvm/IR/DataLayout.h"
 #include "llvm/IR/DebugInfo.h"
@@ -87,6 +88,11 @@ static void emitGEPDecomp(json::OStream &J, const GEPOperator *G);
 
 static void emitValue(json::OStream &J, const Value *V, int depth = 0)
 {
+    // fold constant expressions with the data layout (offsetof idioms such as
+    // ptrtoint(gep null, 0, k) become plain integers)
+    if (auto *CE0 = dyn_cast<ConstantExpr>(V))
+        if (Constant *F = ConstantFoldConstant(CE0, *DL))
+            V = F;
     J.object([&] {
         if (auto *CI = dyn_cast<ConstantInt>(V))
         {
